@@ -76,10 +76,29 @@ pub fn architectures() -> Vec<Value> {
                "layers": [{"kind": "dense", "out": 6, "act": "leaky", "bias": true},
                           {"kind": "dense", "out": 3, "act": "softmax", "bias": true}],
                "objective": {"kind": "ce"}, "optimizer": {"kind": "adamw", "lr": 0.01, "decay": 0.01}}),
+        // a convolution filter that never fires (negative kernel, non-negative inputs, ReLU): its summed gradient is
+        // exactly zero in every group, and the step on it is pure weight decay.  The reference applies the documented
+        // SGD rule by hand (`manual_sgd`) instead of calling the optimizer.
+        json!({"name": "cnn-deadfilter-sgd-decay", "ints": false, "input": [1, 4, 4], "out": 2,
+               "dead_filter": true, "manual_sgd": true,
+               "layers": [{"kind": "conv", "filters": 2, "kernel": [2, 2], "stride": [1, 1], "padding": [0, 0], "act": "relu"},
+                          {"kind": "dense", "out": 2, "act": "linear", "bias": true}],
+               "objective": {"kind": "mse"}, "optimizer": {"kind": "sgd", "lr": 0.05, "decay": 0.1}}),
     ]
 }
 
 pub fn arch_dataset(arch: &Value, n: usize, rng: &mut Rng) -> Dataset {
+    let mut d = arch_dataset_raw(arch, n, rng);
+    if arch.get("dead_filter").is_some() {
+        for x in d.inputs.iter_mut() {
+            let v: Vec<f32> = flat(x).iter().map(|a| a.abs()).collect();
+            *x = crate::tensors::triple_rowmajor(&usizes(&arch["input"]), &v);
+        }
+    }
+    d
+}
+
+fn arch_dataset_raw(arch: &Value, n: usize, rng: &mut Rng) -> Dataset {
     dataset(
         n,
         &usizes(&arch["input"]),
@@ -95,6 +114,15 @@ pub fn init_params(net: &mut Network, arch: &Value, rng: &mut Rng) {
         nets::randomize_ints(net, arch, rng, -2, 2);
     } else {
         nets::randomize_floats(net, arch, rng, 0.7);
+    }
+    if arch.get("dead_filter").is_some() {
+        let mut p = verif::layer_params(&net.layers[0]);
+        if let Some(k) = p.kernels.as_mut() {
+            for x in k[1].iter_mut().flatten().flatten() {
+                *x = -0.5 - x.abs();
+            }
+        }
+        verif::set_layer(&mut net.layers[0], p);
     }
 }
 
@@ -135,7 +163,12 @@ pub fn run_reference(net: &mut Network, arch: &Value, data: &Dataset, updates: &
                     }
                 }
             }
-            net.verif_update(u["step"].as_i64().unwrap() as i32, wsum, bsum);
+            if arch.get("manual_sgd").is_some() {
+                let o = &arch["optimizer"];
+                nets::manual_sgd_step(net, &wsum, &bsum, o["lr"].as_f64().unwrap() as f32, o.get("decay").and_then(|d| d.as_f64()).map(|d| d as f32));
+            } else {
+                net.verif_update(u["step"].as_i64().unwrap() as i32, wsum, bsum);
+            }
             let ids = usizes(batch);
             let sum: f32 = ids.iter().map(|s| losses[*s - 1]).sum();
             epoch_loss += sum / ids.len() as f32;
@@ -564,6 +597,66 @@ fn epoch_loss_mismatch(events: &[String], train: &[f32], batch: usize) -> Option
     None
 }
 
+/// The groups `learn` formed, as its hooks logged them (Batch .. SampleDone* .. Update), in the form `run_reference`
+/// executes: one update per group with the logged step number, the group's samples in index order.
+fn logged_schedule(events: &[String]) -> (Value, Value) {
+    let (mut updates, mut train): (Vec<Value>, Vec<Vec<Value>>) = (Vec::new(), Vec::new());
+    let mut group: Vec<i64> = Vec::new();
+    for line in events {
+        let v: Value = match serde_json::from_str(line) {
+            Ok(v) => v,
+            Err(_) => continue,
+        };
+        match v["event"].as_str().unwrap_or("") {
+            "Batch" => {
+                group.clear();
+                let e = v["epoch"].as_i64().unwrap_or(1) as usize;
+                while train.len() < e {
+                    train.push(Vec::new());
+                }
+            }
+            "SampleDone" => group.push(v["sample"].as_i64().unwrap_or(0) + 1),
+            "Update" => {
+                group.sort();
+                updates.push(json!({"step": v["stepnr"], "grads": group.iter().map(|s| json!({"s": s})).collect::<Vec<_>>()}));
+                if let Some(last) = train.last_mut() {
+                    last.push(json!(group));
+                }
+                group.clear();
+            }
+            _ => (),
+        }
+    }
+    (json!(updates), json!(train))
+}
+
+/// C04 on a recorded run: the weights `learn` ends with equal the descent that executes the logged groups (which the
+/// trace specification validates against the model) with the implementation's own primitives: one step per group on
+/// the sum of the per-sample gradients at the pre-step weights.  Only for architectures without dropout.
+fn descent_mismatch(spec: &RunSpec, res: &RunResult) -> Option<Value> {
+    if spec.arch.to_string().contains("\"dropout\"") {
+        return None;
+    }
+    let (updates, train) = logged_schedule(&res.events);
+    let out = guarded(|| {
+        let mut rng = Rng::new(spec.data_seed);
+        let mut net = nets::build(&spec.arch);
+        init_params(&mut net, &spec.arch, &mut rng);
+        let data = arch_dataset(&spec.arch, spec.n, &mut rng);
+        run_reference(&mut net, &spec.arch, &data, &updates, &train);
+        nets::all_params(&net).into_iter().flatten().collect::<Vec<f32>>()
+    });
+    let want = match out {
+        Ok(w) => w,
+        Err(e) => return Some(json!({"reference_panicked": e})),
+    };
+    let got: Vec<f32> = res.weights.iter().map(|b| f32::from_bits(*b)).collect();
+    if want.iter().chain(got.iter()).any(|x| !x.is_finite()) {
+        return None;
+    }
+    diff_flat_close(&got, &want, 1e-5).map(|d| json!({"diff": d, "groups": updates.as_array().map(|a| a.len())}))
+}
+
 fn net_event(run: usize, spec: &RunSpec) -> Value {
     json!({"event": "Net", "run": run, "n": spec.n, "batch": spec.batch, "epochs": spec.epochs,
            "has_val": spec.nval > 0, "tol": spec.tol, "nval": spec.nval.max(1), "flagged": flagged_of(&spec.arch),
@@ -598,12 +691,14 @@ pub fn record_training(seed: u64, tier: &str, trace: &mut Vec<Value>, rep: &mut 
     for run in 0..runs {
         let arch = archs[run % archs.len()].clone();
         let diverging = arch["name"] == "diverging";
-        let n = rng.range(1, if tier == "thorough" { 40 } else { 12 }) as usize;
+        // every eighth run (and the first): a group of more than 64 samples (the evaluation paths chunk by 64)
+        let big = !diverging && run % 8 == 0;
+        let n = if big { rng.range(65, if tier == "thorough" { 200 } else { 140 }) as usize } else { rng.range(1, if tier == "thorough" { 40 } else { 12 }) as usize };
         let with_val = diverging || rng.below(2) == 0;
         let spec = RunSpec {
             arch,
             n,
-            batch: rng.range(1, n as i64 + 2) as usize,
+            batch: if big { rng.range(65, n as i64 + 2) as usize } else { rng.range(1, n as i64 + 2) as usize },
             epochs: if diverging { 8 } else { rng.range(1, 4) as usize },
             nval: if with_val { *rng.pick(&[1usize, 3, 64, 65, 130]) } else { 0 },
             tol: rng.range(1, 3) as usize,
@@ -622,6 +717,10 @@ pub fn record_training(seed: u64, tier: &str, trace: &mut Vec<Value>, rep: &mut 
                 // mean per-sample loss (per-sample losses as logged by the SampleDone hook, in sample order)
                 if let Some(d) = epoch_loss_mismatch(&res.events, &res.train, spec.batch) {
                     rep.mismatch("C04", "reported_train_loss_is_not_mean_of_group_means", &format!("run{}", run), d, &json!({"run": run, "arch": spec.arch["name"], "n": spec.n, "batch": spec.batch}));
+                }
+                rep.checks += 1;
+                if let Some(d) = descent_mismatch(&spec, &res) {
+                    rep.mismatch("C04", "weights_differ_from_descent_over_logged_groups", &format!("run{}", run), d, &json!({"run": run, "arch": spec.arch["name"], "n": spec.n, "batch": spec.batch, "epochs": spec.epochs}));
                 }
                 push_hook_events(trace, res.events, false);
                 rep.nontrivial(format!("run{}", run));
